@@ -70,6 +70,8 @@ def expr_family(tier):
             # conditionals with a constant arm (all four forms), alone and nested inside other operators
             "a ? b : 1'b1", "a ? b : 1'b0", "a ? 1'b1 : b", "a ? 1'b0 : b", "a ? b : 1'h1", "(a ? b : 1'b1) & c", "~(a ? 1'b0 : b) | c", "a ? (b ? c : 1'b1) : 1'b0", "a & b ? 1'b1 : c ^ d",
             "a ? b : a", "a ? a : b", "a ? ~a : b",
+            # the same net on both sides of an operator (a circuit gate's fan-in is a set)
+            "a ^ a", "a ~^ a", "a & a", "a | a", "(a ^ a) | b", "a ^ b ^ a", "(a & b) ^ (a & b)", "~(a ~^ a) & b", "a ^ a ^ a",
             "1'b0", "1'b1", "1'h0", "1'h1", "a & 1'b1", "a | 1'b0", "a ^ 1'b1 ^ b", "1'b0 ? a : b", "a ? 1'b1 : 1'b0", "a & b | c & d", "a | b & c | d", "a ^ b & c ^ d", "a | b ^ c & d"]
     seen, res = set(), []
     for e in out:
@@ -176,6 +178,8 @@ def run(chk):
     # helpers - as opposed to callbacks lark calls by rule name - are the methods the class itself reaches through `self.<name>`
     # and the ones that are not plain methods (properties, static / class methods)
     helpers = {"__init__"} | {n.attr for n in ast.walk(cls.node if hasattr(cls, "node") else cls) if isinstance(n, ast.Attribute) and isinstance(n.value, ast.Name) and n.value.id == "self"}
+    # ... or that helper classes of the module reach through a reference to the transformer (`self.transformer.add_blackbox(...)`)
+    helpers |= {n.attr for n in ast.walk(repo.tree[FILE]) if isinstance(n, ast.Attribute) and isinstance(n.value, ast.Attribute)}
     helpers |= {m.node.name for m in repo.methods(FILE, "_VerilogCircuitGraphTransformer")
                 if any(ast.unparse(d).split(".")[-1] in ("property", "staticmethod", "classmethod", "cached_property", "setter") for d in m.node.decorator_list)}
     callbacks = [m for m in repo.methods(FILE, "_VerilogCircuitGraphTransformer") if m.node.name not in helpers and not m.node.name.startswith("_")]
@@ -185,6 +189,10 @@ def run(chk):
     chk.floor("transformer callbacks", len(callbacks), 12)
     need_cb = ["module", "input_declaration", "output_declaration", "module_instantiation", "assignment", "not_gate", "and_gate", "or_gate", "xor_gate", "xnor_gate", "ternary", "constant_zero", "constant_one"]
     have = {m.node.name for m in callbacks}
+    # a callback may also be a class-level name bound to a callable (`and_gate = partialmethod(_operator_gate, "and", 2)`)
+    cnode = cls.node if hasattr(cls, "node") else cls
+    have |= {t.id for st in cnode.body if isinstance(st, (ast.Assign, ast.AnnAssign)) and isinstance(getattr(st, "value", None), (ast.Call, ast.Name, ast.Lambda))
+             for t in (st.targets if isinstance(st, ast.Assign) else [st.target]) if isinstance(t, ast.Name)}
     for r in need_cb:
         chk.ob("C02.G.rule-has-callback", r, r in have and r in rule_names, file=FILE, func=f"_VerilogCircuitGraphTransformer.{r}", fact={"rule_in_grammar": r in rule_names, "callback": r in have},
                expect="rule present in the grammar with a transformer callback")
@@ -228,6 +236,18 @@ def run(chk):
         prob = {"error": str(ex)[:160]}
     chk.ob("C02.E.expression", "assign::1'bx", prob is None, file=FILE, func="_VerilogCircuitGraphTransformer.constant_x", fact=prob or {}, expect="o driven by the x constant")
 
+    # a primitive instance listing one net twice
+    for t_, ports_, fn_ in (("xor", "o, a, a", lambda v: False), ("xnor", "o, a, a", lambda v: True), ("xor", "o, a, b, a", lambda v: v["b"]), ("xnor", "o, a, b, b", lambda v: not v["a"]),
+                            ("and", "o, a, a", lambda v: v["a"]), ("nor", "o, a, b, a", lambda v: not (v["a"] or v["b"]))):
+        text = module_text(["a", "b"], ["o"], [], [f"{t_} g0 ({ports_});"])
+        n_parse_p = 1
+        try:
+            c = full_parse(P, text)
+            prob = check_function(c, "o", ["a", "b"], fn_)
+        except ParseError as ex:
+            prob = {"error": str(ex)[:160]}
+        chk.ob("C02.P.primitive", f"primitive::{t_}({ports_.replace(' ', '')}) repeated operand", prob is None, file=FILE, func="_VerilogCircuitGraphTransformer.module_instantiation", fact=prob or {},
+               expect="the gate function over the operands as listed (a net listed twice counts twice)")
     # ---- P: primitive instances --------------------------------------------
     voc_gates = ["and", "nand", "or", "nor", "xor", "xnor", "buf", "not"]
     for t in voc_gates:
@@ -320,6 +340,8 @@ def run(chk):
         "same size, an input missing and an undeclared name listed": module_text(["a", "c"], ["y"], [], ["assign y = a & c;"], ports=["a", "b", "y"]),
         "same size, an output missing and an undeclared name listed": module_text(["a", "b"], ["y", "z"], [], ["assign y = a & b;", "assign z = a;"], ports=["a", "b", "y", "q"]),
         "same size, every listed name undeclared": module_text(["a", "c"], ["y"], [], ["assign y = a & c;"], ports=["q", "r", "s"]),
+        "empty port list with declared ports": "module m ();\n  input a, b;\n  output y;\n  assign y = a & b;\nendmodule\n",
+        "empty port list with a blank, declared ports": "module m ( );\n  input a;\n  output y;\n  assign y = ~a;\nendmodule\n",
         "port declared as a wire and driven, declarations last": "module m (a, w, o);\n  assign w = ~a;\n  assign o = w;\n  wire w;\n  output o;\n  input a;\nendmodule\n",
     }
     for name, text in rej.items():
@@ -328,7 +350,8 @@ def run(chk):
             c = full_parse(P, text)
             prob = {"problem": "accepted", "inputs": sorted(c.inputs()), "outputs": sorted(c.outputs())}
         except ParseError as ex:
-            prob = None if ex.kind in ("VerilogParsingError", "ValueError") else {"problem": f"rejected with {ex.kind} instead of a parsing error", "error": str(ex)[:120]}
+            # a header the grammar itself refuses (an empty port list) is rejected by the parser generator's own error
+            prob = None if ex.kind in ("VerilogParsingError", "ValueError") or name.startswith("empty port list") else {"problem": f"rejected with {ex.kind} instead of a parsing error", "error": str(ex)[:120]}
         chk.ob("C02.R.port-list-rejected", name, prob is None, file=FILE, func="_VerilogCircuitGraphTransformer.module", fact=prob or {}, expect="VerilogParsingError")
     text = module_text(["a", "b"], ["o"], ["w"], ["assign w = a | b;", "assign o = w;"])
     try:
@@ -396,6 +419,10 @@ def run(chk):
         "slashes inside a block comment, code after it, later block comment": (module_text(["a", "b"], ["o", "p"], ["w"], ["/* see http://x.y // old: assign o = a; */ nand g0(w, a, b);", "assign o = w;", "/* second */ assign p = w & a;"]),
                                                                                {"o": lambda v: not (v["a"] and v["b"]), "p": lambda v: (not (v["a"] and v["b"])) and v["a"]}),
     }
+    # identifiers that contain the keywords the entry point cuts the module out with
+    com_cases["nets named x_endmodule / endmodule_x / my_module"] = (module_text(["a", "b"], ["o", "p"], ["x_endmodule", "endmodule_x", "my_module"],
+                                                                                 ["and g0(x_endmodule, a, b);", "or g1(endmodule_x, a, b);", "not g2(my_module, a);", "assign o = x_endmodule ^ endmodule_x;", "assign p = my_module;"]),
+                                                                     {"o": lambda v: (v["a"] and v["b"]) != (v["a"] or v["b"]), "p": lambda v: not v["a"]})
     for name, (text, fns) in com_cases.items():
         r = P.call("io.py", "verilog_to_circuit", text, "m")
         n_parse += 1
